@@ -279,21 +279,26 @@ inline KCase genCase(const GenOpt& o)
   if (o.blockMode != 0 && c.order > 1) c.order = 1; // the drift of a block is taken at its centre: exact up to order 1 only
   if (o.blockMode == 2 && c.ndim == 1) c.ndim = 2;
   int nbfl = monoCount(c.ndim, c.order) + c.nfex;
+  if (nbfl >= 8 && c.nvar > 2) c.nvar = 2; // keep the number of universality equations moderate
 
   // sizes
-  int nmax = std::max(2, o.nMax / c.nvar);
+  int nmax = std::max(std::max(2, o.nMax / c.nvar), nbfl + 4);
   int n = G::sz(1, nmax);
-  if (G::pct(85)) n = std::min(nmax, std::max(n, nbfl + 1 + G::i(0, 3)));
+  if (G::pct(90)) n = std::min(nmax, std::max(n, nbfl + 1 + G::i(0, 3)));
   int nt = G::sz(1, 6);
 
   // geometry
-  c.L = (c.order == 2) ? G::pick<double>({1., 1., 1., 100.}) : (c.order == 1 ? G::pick<double>({1., 1., 100., 100., 1e4}) : G::pick<double>({1., 1., 100., 100., 1e4}));
+  // the library does not centre the coordinates in the drift monomials: large coordinates with a drift of
+  // order >= 1 give systems with kappa > 1e10 (inconclusive by the property's own clause); they are generated,
+  // but not most of the time
+  c.L = (c.order == 2) ? G::pick<double>({1., 1., 1., 100.}) : (c.order == 1 ? G::pick<double>({1., 1., 1., 100., 100., 1e4}) : G::pick<double>({1., 1., 100., 100., 1e4}));
   vfgeo::Lattice lat;
   std::vector<Points> sets = vfgeo::genPointSets(c.ndim, {n, o.blockMode ? 0 : nt}, G::pct(30), true, c.L, &lat);
   std::vector<double> org((size_t)c.ndim);
   for (int d = 0; d < c.ndim; d++)
-    org[(size_t)d] = (c.order >= 1) ? G::pick<double>({0., 0., -3.25, 0.5, 250.5}) * (c.order == 2 ? std::min(1., c.L) : 1.)
-                                    : G::pick<double>({0., 0., -1e4, 1e4, 250.5, -3.25});
+    org[(size_t)d] = (c.order == 2) ? G::pick<double>({0., 0., -0.5, 0.25, -1., 3.}) * c.L
+                     : (c.order == 1) ? G::pick<double>({0., 0., -0.5 * c.L, -3.25, 0.5, 250.5})
+                                      : G::pick<double>({0., 0., -1e4, 1e4, 250.5, -3.25});
   for (auto& P : sets)
     for (int i = 0; i < P.n(); i++)
       for (int d = 0; d < c.ndim; d++) P.c[(size_t)(i * c.ndim + d)] += org[(size_t)d] - lat.origin[(size_t)d];
@@ -305,7 +310,7 @@ inline KCase genCase(const GenOpt& o)
   for (auto& v : c.z) v = zoff + G::r(-40, 40, 8);
   if (c.nvar > 1 && G::pct(o.heteroPct))
   {
-    int p = G::pick<int>({20, 50, 70});
+    int p = (nbfl >= 3) ? G::pick<int>({10, 20, 40}) : G::pick<int>({20, 50, 70});
     for (int i = 0; i < n; i++)
       for (int v = 0; v < c.nvar; v++)
         if (G::pct(p)) c.z[(size_t)(i * c.nvar + v)] = NA;
@@ -377,14 +382,15 @@ inline KCase genCase(const GenOpt& o)
   if (c.moving)
   {
     c.nmaxi = G::pct(70) ? G::i(1, 12) : 1000;
+    if (G::pct(85)) c.nmaxi = std::max(c.nmaxi, nbfl + G::i(1, 4));
     c.nmini = G::pick<int>({1, 1, 1, 2, 3});
     if (c.ndim >= 2 && G::pct(o.sectorPct))
     {
       c.nsect = G::pick<int>({2, 4, 4, 8, 3});
-      c.nsmax = G::pct(50) ? G::i(1, 3) : 0;
+      c.nsmax = G::pct(50) ? G::i(1, 3) + (G::pct(70) ? nbfl / c.nsect : 0) : 0;
     }
-    c.hasRadius = G::pct(75) ? 1 : 0;
-    c.radius = c.L * G::lu(0.15, 1.5);
+    c.hasRadius = G::pct(nbfl >= 3 ? 50 : 75) ? 1 : 0;
+    c.radius = c.L * (nbfl >= 3 ? G::lu(0.4, 2.) : G::lu(0.15, 1.5));
     bool iso = G::pct(50);
     // coefficients are always given: without them the library's distance checker is 2-D whatever the space
     // (finding of C06), which is not the object of this property
@@ -639,6 +645,8 @@ struct Sys
   int nu = 0, nbfl = 0, nfeq = 0, N = 0;
   MatL A, B, C00, sol, zext, zam;
   double kappa = 0.;
+  double sminInv = 0.;     // 1 / smallest singular value of A  (= ||A^-1||_2)
+  double covScale = 0.;    // largest |covariance| entry of A
   bool solved = false;
   std::vector<LD> estim, var, varz, scaleE, scaleV; // per target variable
   LD normA = 0;
@@ -849,6 +857,10 @@ public:
     S.solved = false;
     S.kappa = INFINITY;
     S.normA = 0;
+    S.covScale = 0;
+    for (int a = 0; a < nu; a++)
+      for (int b = 0; b < nu; b++) S.covScale = std::max(S.covScale, (double)fabsl(S.A(a, b)));
+    for (int a = 0; a < nv; a++) S.covScale = std::max(S.covScale, (double)fabsl(S.C00(a, a)));
     if (N == 0 || nu == 0) return;
     for (int r = 0; r < N; r++)
     {
@@ -863,6 +875,7 @@ public:
       Eigen::JacobiSVD<Eigen::MatrixXd> svd(Ad);
       double smax = svd.singularValues()(0), smin = svd.singularValues()(N - 1);
       S.kappa = (smin > 0) ? smax / smin : INFINITY;
+      S.sminInv = (smin > 0) ? 1. / smin : INFINITY;
     }
     if (!(S.kappa < 1e15)) return;
     Eigen::FullPivLU<MatL> lu(S.A);
@@ -919,6 +932,23 @@ inline double etaIn(const KCase& c)
   return (r > 1.) ? kEps * r : 0.;
 }
 inline double epsK(double kappa, double eta = 0.) { return std::max(1e-10, kappa * (1e3 * kEps + 10. * eta)); }
+// absolute error level of one covariance entry of the system (evaluation differences between the two code
+// paths), relative to the largest covariance: the entries of Sigma0 may be arbitrarily small (far targets)
+// while their error stays proportional to the sill
+inline double epsIn(double eta) { return 1e-12 + 10. * eta; }
+// absolute allowance on an estimate / on lambda'b due to epsIn: |d lambda| <= ||A^-1|| sqrt(N) epsIn covScale
+inline LD floorE(const Sys& S, double eta)
+{
+  LD z2 = 0;
+  for (int a = 0; a < S.nu; a++) z2 += S.zext(a, 0) * S.zext(a, 0);
+  return (LD)10 * (LD)epsIn(eta) * (LD)S.covScale * sqrtl((LD)S.N) * (LD)S.sminInv * sqrtl(z2);
+}
+inline LD floorV(const Sys& S, double eta, int tv)
+{
+  LD l1 = 0;
+  for (int r = 0; r < S.N; r++) l1 += fabsl(S.sol(r, tv));
+  return (LD)10 * (LD)epsIn(eta) * (LD)S.covScale * ((LD)1 + 2 * l1);
+}
 
 // ------------------------------------------------------------------ neighbourhood -------
 struct NbRef
